@@ -4,7 +4,7 @@
  1. TLC, exhaustive: Heap.tla - Once, DelWorks, DownClean, NoZombie for all interleavings of new/new_root/new_raw,
     del, Box ownership (owner swept before or after the owned object: every order of the sweep's pending list),
     collections, stop/start and teardown; the as-found designs (pending entry only cleared, entry not cleared when
-    processed, stop window) are refuted.
+    processed, stop window, a nested sweep started by an allocating finaliser, a single teardown sweep) are refuted.
  2. The model's transitions and random programs run on the real collector, one process each, with Node objects
     whose destructor keeps a per-object count; the last event is written after Cello_Exit.
  3. TLC validates (HeapTrace, Mode "final"): no destructor runs twice, an explicit del finalises at once, a
@@ -21,7 +21,7 @@ def main(tier, replay=None):
     chk = vlib.Check(PID, tier, "model_checking")
     rng = chk.rng
     quick = tier == "quick"
-    harness, edges = setup(chk, tier, ["coop", "stop", "noclear"])
+    harness, edges = setup(chk, tier, ["coop", "stop", "noclear", "nested", "tearonce"])
     if replay:
         return runner.replay_file(chk, harness, replay, "HeapTrace", "HeapTrace_final.cfg", ())
     camp = runner.Campaign(chk, harness, "HeapTrace", "HeapTrace_final.cfg", per_process=True)
